@@ -107,13 +107,15 @@ Proof.
               /\ tmatch (toks_of [] [Seg a]) x = seg_match a x).
     { intros x Hx. destruct (tmatch_ok [] [Seg a] [x] Hfrag Hcomp) as [E M]; [discriminate|cbn; now rewrite Hx|].
       split; [exact E|]. change (path_str [] [x]) with x in M. rewrite M. cbn [segs_match]. apply andb_true_r. }
-    destruct (pkg ++ f) as [|x [|y g']] eqn:Epf; [congruence| |].
+    assert (Hcase : (exists x, pkg = [] /\ f = [x])
+                    \/ match pkg ++ f with _ :: _ :: _ => true | _ => false end = true).
+    { destruct pkg as [|p [|p2 pkg']]; destruct f as [|x [|y f']]; try congruence; try (right; reflexivity).
+      left. now exists x. }
+    destruct Hcase as [(x & -> & ->)|Hs].
     + (* the path has one component: root package, top-level entry *)
-      assert (pkg = [] /\ f = [x]) as [-> ->].
-      { destruct pkg as [|p pkg]; [now split|]. cbn in Epf. injection Epf as _ E. apply app_eq_nil in E as [_ E]. congruence. }
-      cbn [andb]. destruct (Hm x) as [E M]; [cbn in Hfok; rewrite andb_true_r in Hfok; now apply entry_name_ok_parts in Hfok|].
+      cbn [app andb]. destruct (Hm x) as [E M]; [cbn in Hfok; rewrite andb_true_r in Hfok; now apply entry_name_ok_parts in Hfok|].
       exists (toks_of [] [Seg a]). split; [exact E|]. exact M.
-    + cbn [andb negb]. destruct (Hm (last f []) Hln) as [E M].
+    + rewrite Hs. cbn [andb negb]. destruct (Hm (last f []) Hln) as [E M].
       exists (toks_of [] [Seg a]). split.
       * rewrite Hr. cbn [map]. rewrite matcher_empty_root; [exact E|discriminate|exact HL].
       * unfold path_str. rewrite base_of_path; [|exact Hpf|now apply entries_name_ok|].
@@ -222,7 +224,7 @@ Qed.
 
 (* ------------------------------------------------------------------------------------------- Part T3 *)
 (* the classes of inputs on which the unchanged code is known to deviate from the documented selection
-   (C21_refuted*), as an executable classifier *)
+   (the C21_refuted theorems), as an executable classifier *)
 Inductive defect :=
 | DPatternOutsideFragment        (* `?`/negated class that can reach '/', leading `**` in the root package, `**/**`, '/' literal *)
 | DPatternNotCompiled            (* the compiled matcher is not the token translation: unescaped regexp metacharacter, unclean pattern *)
@@ -232,8 +234,44 @@ Inductive defect :=
 | DPlzOutName                    (* root package: an entry named plz-out other than a top-level directory *)
 | DDirectoryMatched.             (* an include pattern matches a directory of the package (directories are returned) *)
 
+(* "." (the root package's own directory) is hidden; any other package directory's path string is never matched *)
+Definition dot_matched (pkg : list str) (incs : list pat) (hidden : bool) : bool :=
+  is_nil pkg && hidden && existsb (fun p => segs_match p [s "."]) incs.
+
+Lemma segs_match_nil m p : segs_ok m p = true -> p <> [] -> segs_match p [] = false.
+Proof.
+  destruct p as [|[|a] rest]; [congruence| |reflexivity]. intros H _.
+  destruct rest as [|[|a2] r2]; [reflexivity|discriminate|reflexivity].
+Qed.
+
+Lemma root_not_matched pkg p : pkg <> [] -> fragment pkg p = true ->
+  tmatch (toks_of pkg p) (intercalate pkg) = false.
+Proof.
+  intros Hne Hfr. unfold fragment in Hfr. apply andb_prop in Hfr as [Hfr Hshape]. apply andb_prop in Hfr as [Hp Hk].
+  unfold toks_of. set (m := has_dstar p) in *.
+  assert (Htr : forall b, atom_ok m b = true -> tr_ok (if m then rtok else gtok) b).
+  { destruct m; [exact rtok_ok|exact gtok_ok]. }
+  assert (Hq : segs_ok m (map lit_seg pkg ++ p) = true) by now apply segs_ok_pkg.
+  assert (Hpne : p <> []) by (destruct pkg; destruct p; try discriminate; congruence).
+  pose proof (segs_match_pkg pkg p []) as E. rewrite app_nil_r in E.
+  destruct pkg as [|x pkg]; [congruence|]. cbn [map app] in *. unfold lit_seg at 1. unfold lit_seg at 1 in Hq. unfold lit_seg at 1 in E.
+  rewrite (pattern_head _ m Htr _ _ Hq (x :: pkg)); [|discriminate|exact Hk].
+  rewrite E. now apply (segs_match_nil m).
+Qed.
+
+Lemma root_kept_false pkg p hidden : forallb entry_name_ok pkg = true -> inc_ok pkg p = true ->
+  is_nil pkg && hidden && segs_match p [s "."] = false -> root_kept pkg p hidden = false.
+Proof.
+  intros Hpkg Hinc H. unfold inc_ok in Hinc. apply andb_prop in Hinc as [Hfr Hc]. unfold root_kept.
+  destruct pkg as [|x pkg].
+  - destruct (tmatch_ok [] p [s "."] Hfr Hc) as [_ M]; [discriminate|reflexivity|].
+    change (pstr [] []) with (path_str [] [s "."]). rewrite M. cbn [is_nil andb] in H.
+    change (is_hidden (path_str [] [s "."])) with true. cbn [negb]. rewrite orb_false_r, andb_comm. exact H.
+  - rewrite pstr_root. unfold root_str. rewrite (root_not_matched (x :: pkg) p); [reflexivity|discriminate|exact Hfr].
+Qed.
+
 Definition dir_matched (bfn : list str) (pkg : list str) (tree : node) (incs : list pat) (hidden : bool) : bool :=
-  existsb (fun p => root_kept pkg p hidden) incs
+  dot_matched pkg incs hidden
   || existsb (fun e => snd e && existsb (fun p => segs_match p (fst e)) incs) (ents bfn (is_nil pkg) [] tree).
 
 Definition defect_class (bfn pkg : list str) (tree : node) (incs excs : list pat) (hidden : bool) : option defect :=
@@ -286,7 +324,14 @@ Proof.
   intros Hin Hwf Hdef. unfold inputs_ok in Hin.
   apply andb_prop in Hin as [Hin Hewf]. apply andb_prop in Hin as [Hin Hiwf]. apply andb_prop in Hin as [Hpkg _].
   destruct (defect_none _ _ _ _ _ _ Hdef) as (Hinc & Hexc & Hnb & Hhid & Hplz & Hdm).
-  unfold dir_matched in Hdm. apply orb_false_elim in Hdm as [Hroot Hdirs].
+  unfold dir_matched in Hdm. apply orb_false_elim in Hdm as [Hdot Hdirs].
+  assert (Hroot : existsb (fun p => root_kept pkg p hidden) incs = false).
+  { destruct (existsb (fun p => root_kept pkg p hidden) incs) eqn:E; [|reflexivity].
+    apply existsb_exists in E as (p & Hp & Hk). rewrite forallb_forall in Hinc.
+    rewrite (root_kept_false pkg p hidden Hpkg (Hinc p Hp)) in Hk; [discriminate|].
+    unfold dot_matched in Hdot. destruct (is_nil pkg && hidden); [|reflexivity]. cbn [andb] in Hdot |- *.
+    destruct (segs_match p [s "."]) eqn:Em; [|reflexivity].
+    assert (existsb (fun p => segs_match p [s "."]) incs = true); [|congruence]. apply existsb_exists. now exists p. }
   pose proof Hwf as Hwf0. unfold tree_wf in Hwf. apply andb_prop in Hwf as [Hisdir Hwf].
   destruct tree as [| |kids]; try discriminate.
   destruct (pkg_name_root pkg Hpkg) as [Eroot Etop].
@@ -337,3 +382,81 @@ Proof.
       * unfold Fl. apply -> in_rev. apply in_or_app. now left.
       * unfold sel. rewrite Hm, Hvis, Hnex, Hunder, Hund. rewrite (is_nil_false f (HFne f HinFn)). reflexivity.
 Qed.
+
+(* ------------------------------------------------------------------------------------------- the walk, summed up *)
+(* walkDir on path strings: it records the package directory, then paths of entries of the tree; after the
+   sub-package filter (isInDirectories against the recorded sub-packages) exactly the entries `ents` remain *)
+Theorem walk_characterised bfn pkg kids :
+  forallb entry_name_ok pkg = true -> tree_wf (Dir kids) = true ->
+  is_build_file bfn (root_str pkg) = false -> plz_ok (is_nil pkg) (Dir kids) = true ->
+  exists F S,
+    walk_dir bfn (root_str pkg) (Dir kids)
+    = Walked (root_str pkg :: map (path_str pkg) F) [] (map (path_str pkg) S)
+    /\ (forall f, In f F -> f <> [] /\ forallb entry_name_ok f = true)
+    /\ (forall d, In d S -> d <> [] /\ forallb entry_name_ok d = true)
+    /\ (forall f, (In f F /\ under_any S f = false) <-> In f (map fst (ents bfn (is_nil pkg) [] (Dir kids)))).
+Proof.
+  intros Hpkg Hwf0 Hnb Hplz. pose proof Hwf0 as Hwf. unfold tree_wf in Hwf. cbn [is_dir andb] in Hwf.
+  destruct (walk_sets bfn (is_nil pkg) kids Hwf Hplz) as (Fn & Sn & Ewalk & HFne & HSne & Hents).
+  destruct (walk_names bfn (is_nil pkg) kids Hwf) as [HFok HSok]. rewrite Ewalk in HFok, HSok. cbn [fst snd] in HFok, HSok.
+  exists (rev Fn), (rev Sn). split; [|split; [|split]].
+  - rewrite (walk_dir_refines bfn pkg kids Hpkg Hwf0 Hnb). cbv zeta. rewrite Ewalk. cbn [fst snd].
+    rewrite <- !map_rev, rev_app_distr. cbn [rev app map]. rewrite pstr_root. f_equal.
+    + f_equal. apply map_ext_in. intros f Hf. apply pstr_nonroot. apply HFne. now apply in_rev.
+    + apply map_ext_in. intros f Hf. apply pstr_nonroot. apply HSne. now apply in_rev.
+  - intros f Hf. apply in_rev in Hf. split; [now apply HFne|]. apply HFok. apply in_or_app. now left.
+  - intros d Hd. apply in_rev in Hd. split; [now apply HSne|now apply HSok].
+  - intros f. rewrite <- Hents, <- in_rev. split; intros [H1 H2]; (split; [exact H1|]).
+    + apply under_any_false. intros d Hd. apply (proj1 (under_any_false _ _) H2). now apply -> in_rev.
+    + apply under_any_false. intros d Hd. apply (proj1 (under_any_false _ _) H2). now apply in_rev.
+Qed.
+
+(* ------------------------------------------------------------------------------------------- non-vacuity *)
+Definition go_pat : list atom := [AStar; ALit 46; ALit 103; ALit 111].                               (* *.go *)
+(* a package with a BUILD file, nested directories, a hidden file, the repository's plz-out and a sub-package *)
+Definition t8_tree : node :=
+  Dir [(s "BUILD", File); (s "d1", Dir [(s "a.txt", File); (s "d2", Dir [(s "c.txt", File)])]);
+       (s "lib", Dir [(s ".hid.go", File); (s "a.go", File); (s "a_test.go", File)]);
+       (s "plz-out", Dir [(s "g.txt", File)]); (s "sub", Dir [(s "BUILD", File); (s "s.txt", File)])].
+Definition t8_incs : list pat := [[Seg (map ALit (s "d1")); DStar; Seg txt_pat]; [Seg (map ALit (s "lib")); Seg go_pat]].
+Definition t8_excs : list pat := [[Seg (AStar :: map ALit (s "_test.go"))]; [Seg (map ALit (s "d1")); Seg (map ALit (s "d2"))]].
+Definition t9_tree : node :=
+  Dir [(s "a", File); (s "a.txt", File); (s "ab", Dir [(s "a", File); (s "ab", File); (s "x.txt", File)]); (s "b+", File)].
+
+Lemma tree_domain_witness :
+  inputs_ok [] t8_tree t8_incs t8_excs = true /\ tree_wf t8_tree = true
+  /\ defect_class w_bfn [] t8_tree t8_incs t8_excs false = None
+  /\ glob w_bfn [] t8_tree (map render t8_incs) (map render t8_excs) false false = Some [s "d1/a.txt"; s "lib/a.go"]
+  /\ glob_spec w_bfn [] t8_tree t8_incs t8_excs false false = [[s "d1"; s "a.txt"]; [s "lib"; s "a.go"]]
+  (* in a nested package plz-out is an ordinary directory *)
+  /\ defect_class w_bfn [s "third_party"; s "go"] t8_tree [[DStar; Seg txt_pat]] t8_excs false = None
+  /\ glob w_bfn (s "third_party/go") t8_tree [s "**/*.txt"] (map render t8_excs) false false
+     = Some [s "d1/a.txt"; s "plz-out/g.txt"].
+Proof. vm_compute. repeat split. Qed.
+
+(* every refuting witness of Proof/C21.v lies in a defect class, and so does the package named like a BUILD file *)
+Lemma witnesses_classified :
+  defect_class w_bfn [s "p"] w1_tree [[DStar; Seg txt_pat]] [] false = Some DHiddenDirectory
+  /\ defect_class w_bfn [s "p"] w2_tree [w2_pat] [] false = Some DPatternNotCompiled
+  /\ defect_class w_bfn [s "p"] w3_tree [[Seg [AStar]]] [] false = Some DDirectoryMatched
+  /\ defect_class w_bfn [] w3_tree [[DStar; Seg txt_pat]] [] false = Some DPatternOutsideFragment
+  /\ defect_class w_bfn [s "p"] w5_tree [w5_pat] [] false = Some DPatternOutsideFragment
+  /\ defect_class w_bfn [s "p"] w5_tree [w6_pat] [] false = Some DPatternOutsideFragment
+  /\ defect_class w_bfn [] w7_tree [[Seg [AStar]; DStar]] [] false = Some DPlzOutName
+  /\ defect_class w_bfn [s "a"; s "BUILD"] t8_tree [[DStar; Seg txt_pat]] [] false = Some DPackageNamedLikeBuildFile
+  /\ glob w_bfn (s "a/BUILD") t8_tree [s "**/*.txt"] [] false false = Some [].
+Proof. vm_compute. repeat split. Qed.
+
+(* how much of a pattern family lies outside every defect class, on two trees, in the root package and a nested one *)
+Definition sweep2 : list pat :=
+  let one := map (fun g => [g]) sweep_segs in
+  one ++ flat_map (fun g => map (cons g) one) sweep_segs.
+
+Definition in_domain (pkg : list str) (tree : node) (p : pat) : bool :=
+  match defect_class w_bfn pkg tree [p] [[Seg [ALit 97]]] false with None => true | Some _ => false end.
+
+Lemma tree_domain_sweep :
+  map (fun tree => map (fun pkg => length (filter (in_domain pkg tree) sweep2)) [[]; [s "pkg"]]) [t8_tree; t9_tree]
+  = [[59; 64]; [58; 61]]%nat
+  /\ length sweep2 = 72%nat.
+Proof. vm_compute. split; reflexivity. Qed.
